@@ -1,0 +1,48 @@
+//! Verification hooks. Compiled only with cargo feature `verif-hooks`.
+//!
+//! Nothing here changes library behaviour: it gives an external conformance
+//! harness access to otherwise private entry points (handshake over a
+//! caller-supplied byte pipe, the frame codec, the fair queue) and named
+//! scheduling points between critical sections.
+use crate::codec::FramedIo;
+use crate::util::PeerIdentity;
+use crate::{MultiPeerBackend, ZmqResult};
+
+use futures::{AsyncRead, AsyncWrite};
+
+use std::future::Future;
+use std::pin::Pin;
+use std::sync::{Arc, RwLock};
+
+/// Runs the library's real greeting + READY handshake and peer registration
+/// over a caller-supplied pair of byte pipes.
+pub async fn attach<R, W>(
+    backend: Arc<dyn MultiPeerBackend>,
+    r: R,
+    w: W,
+) -> ZmqResult<PeerIdentity>
+where
+    R: AsyncRead + Unpin + Send + Sync + 'static,
+    W: AsyncWrite + Unpin + Send + Sync + 'static,
+{
+    crate::util::peer_connected(FramedIo::new(Box::new(r), Box::new(w)), backend).await
+}
+
+/// A controller that may hold a task at a named point between two critical sections.
+pub trait Gate: Send + Sync {
+    fn at(&self, name: &'static str) -> Pin<Box<dyn Future<Output = ()> + Send>>;
+}
+
+static GATE: RwLock<Option<Arc<dyn Gate>>> = RwLock::new(None);
+
+pub fn install_gate(g: Option<Arc<dyn Gate>>) {
+    *GATE.write().unwrap() = g;
+}
+
+/// No-op unless a gate is installed.
+pub async fn yield_point(name: &'static str) {
+    let g = GATE.read().unwrap().clone();
+    if let Some(g) = g {
+        g.at(name).await;
+    }
+}
